@@ -5,7 +5,10 @@ use std::f64::consts::PI;
 const P_X: Matrix3<f64> = Matrix3::new(0.0, 0.0, 0.0, 0.0, 0.0, -1.0, 0.0, 1.0, 0.0);
 const P_Y: Matrix3<f64> = Matrix3::new(0.0, 0.0, 1.0, 0.0, 0.0, 0.0, -1.0, 0.0, 0.0);
 const P_Z: Matrix3<f64> = Matrix3::new(0.0, -1.0, 0.0, 1.0, 0.0, 0.0, 0.0, 0.0, 0.0);
-const EPSILON: f64 = 1e-8;
+// Half-width of the gimbal-lock band in sin(pitch): inside it the pitch is taken as exactly +-pi/2, which
+// costs sqrt(2 * EPSILON) in the reconstructed rotation (1.4e-4 for the former 1e-8), so it is kept
+// near the rounding level
+const EPSILON: f64 = 1e-15;
 
 #[derive(Clone)]
 pub struct Euler<T> {
